@@ -1,0 +1,5 @@
+//go:build !verif
+
+package ratelimit
+
+func verifEmit(string, interface{}, ...interface{}) {}
